@@ -18,7 +18,8 @@
                          multiplicity of the axes); the grouped
                          reduction over the rows of the re-compressed array is the same function of
                          the sorted (row, col) list as in the COO path and is modelled by it (the
-                         indptr form of the groups is [gcxs_groups]).
+                         indptr arithmetic `diff(indptr) != 0`, `indptr[:-1][idx]`, ... is tied by
+                         the API-level correspondence only).
 
    The scalar pieces come in two forms: hand-transcribed for an arbitrary value type V with an
    operation [op] (Section Generic) and *generated from the source* for Python ints and a ufunc
@@ -120,17 +121,6 @@ Definition calc_counts_invidx (groups : list Z) : list Z * list Z :=
   | [] => ([], [])
   | g0 :: r => let '(inv, cnt) := cci_loop r 1 g0 0 in (0 :: inv, cnt)
   end.
-
-(* GCXS._reduce_calc: the same groups read off an index pointer:
-   idx = diff(indptr) != 0; starts = indptr[:-1][idx]; rows = arange(nrows)[idx];
-   counts = indptr[1:][idx] - indptr[:-1][idx] *)
-Fixpoint gcxs_groups_go (r : Z) (indptr : list Z) : list (Z * Z * Z) :=
-  match indptr with
-  | a :: ((b :: _) as t) =>
-    if negb (b - a =? 0) then (a, r, b - a) :: gcxs_groups_go (r + 1) t else gcxs_groups_go (r + 1) t
-  | _ => []
-  end.
-Definition gcxs_groups (indptr : list Z) : list (Z * Z * Z) := gcxs_groups_go 0 indptr.
 
 (* ================================================================== generic model *)
 Section Generic.
@@ -397,6 +387,14 @@ Definition gcxs_reduce_z (m : Z) : axis_arg -> bool -> gcxs Z -> res (rres Z) :=
   gcxs_reduce_with Z Z.eqb (op_z m) (ufunc_cast m) (head_z m) (fix_z m) (rfill_z m).
 
 (* ------------------------------------------------------------------ domain clauses *)
+
+(* the entries of a GCXS array denote distinct in-range positions (executable form of the
+   hypothesis of the GCXS theorems; follows from gcxs_wfb, checked on every generated case) *)
+Fixpoint idx_nodupb (l : list idx) : bool :=
+  match l with [] => true | a :: r => negb (existsb (idx_eqb a) r) && idx_nodupb r end.
+Definition gcxs_okb {V} (g : gcxs V) : bool :=
+  forallb (in_rangeb (g_shape g)) (gcxs_coords g) && idx_nodupb (gcxs_coords g)
+  && (length (g_data g) =? length (gcxs_coords g))%nat.
 
 (* what GCXS._reduce_calc needs of the normalised axis tuple (None is always fine):
    gcxs_axes_nonempty   `axis[0]` raises IndexError on the empty tuple;
